@@ -84,10 +84,14 @@ def effectiveMax (wf stage : Option Int) : Int :=
 
 /-! ### jump budget over the per-stage `_jump_count` context values
 
-  `JumpToStageHandler._handle_with_retry`: the source's `_jump_count` (default 0) is compared with the
-  effective max; an accepted jump writes `count + 1` into the TARGET's context and, unless it is a
-  self loop, into the SOURCE's context.  `reset_stage_for_retry` keeps `_jump_count`, so no other
-  stage's count changes.  A rejected jump leaves all counts alone (the source goes TERMINAL). -/
+  `JumpToStageHandler._handle_with_retry` (as of "fix: an incoming jump never lowers the target stage's
+  jump counter" and "fix: ignore a stale JumpToStage whose source stage is no longer RUNNING"):
+  * a JumpToStage whose source stage is not RUNNING is IGNORED (only marked processed): no stage is written;
+  * otherwise the source's `_jump_count` (default 0) is compared with the effective max; a REJECTED jump
+    leaves all counts alone (the source goes TERMINAL);
+  * an ACCEPTED jump writes `count + 1` into the SOURCE's context (unless it is a self loop) and
+    `max(target's own count, count + 1)` into the TARGET's context — a count is never lowered.
+  `reset_stage_for_retry` keeps `_jump_count`, so no other stage's count changes. -/
 
 /-- `_jump_count` per stage index (absent = 0) -/
 abbrev Counts := List Int
@@ -102,17 +106,41 @@ structure Budget where
 
 def Budget.maxFor (b : Budget) (s : Nat) : Int := effectiveMax b.wf (b.stage.getD s none)
 
-/-- one handled `JumpToStage(source → target)`: new counts and whether it was accepted -/
+/-- one handled `JumpToStage(source → target)` from a RUNNING source: new counts and whether it was accepted -/
 def jumpStep (b : Budget) (cs : Counts) (src tgt : Nat) : Counts × Bool :=
   let c := countOf cs src
-  if jumpAccepted c (b.maxFor src) then ((cs.set src (c + 1)).set tgt (c + 1), true) else (cs, false)
+  if jumpAccepted c (b.maxFor src) then
+    ((cs.set src (c + 1)).set tgt (max (countOf cs tgt) (c + 1)), true)
+  else (cs, false)
 
-/-- a sequence of jump requests, in handling order: final counts and the accepted flags -/
+/-- a sequence of jump requests from RUNNING sources, in handling order: final counts and the accepted flags -/
 def runJumps (b : Budget) : Counts → List (Nat × Nat) → Counts × List Bool
   | cs, [] => (cs, [])
   | cs, (s, t) :: js =>
     let r := jumpStep b cs s t
     let rest := runJumps b r.1 js
+    (rest.1, r.2 :: rest.2)
+
+/-- what the handler does with one JumpToStage message -/
+inductive Verdict where
+  | ignored    -- source stage not RUNNING: stale message, nothing written
+  | rejected   -- budget spent: source TERMINAL
+  | accepted
+  deriving DecidableEq, Repr
+
+/-- one handled JumpToStage message; `running` = the source stage's status is RUNNING -/
+def handleStep (b : Budget) (cs : Counts) (running : Bool) (src tgt : Nat) : Counts × Verdict :=
+  if !running then (cs, .ignored)
+  else
+    let r := jumpStep b cs src tgt
+    (r.1, if r.2 then .accepted else .rejected)
+
+/-- a sequence of JumpToStage messages `(source, target, source RUNNING?)` -/
+def runReqs (b : Budget) : Counts → List (Nat × Nat × Bool) → Counts × List Verdict
+  | cs, [] => (cs, [])
+  | cs, (s, t, running) :: js =>
+    let r := handleStep b cs running s t
+    let rest := runReqs b r.1 js
     (rest.1, r.2 :: rest.2)
 
 /-! ### which stages one accepted jump rewrites (`_handle_with_retry`, status part) -/
@@ -136,11 +164,17 @@ def jumpEffect (g : Graph) (src tgt : Nat) : Effect :=
     skip := if back then [] else skipped g src tgt
     sourceSucceeded := src != tgt && !back }
 
+/-- the status writes of one JumpToStage message that passed the budget check: none when the source is
+    not RUNNING (stale message) -/
+def handleEffect (g : Graph) (running : Bool) (src tgt : Nat) : Option Effect :=
+  if running then some (jumpEffect g src tgt) else none
+
 /-! ### driver
   `jump resettable <root> <g>` | `jump downstream <root> <g>` | `jump skipped <src> <tgt> <g>` |
   `jump backward <src> <tgt> <g>`     with `<g>` = `pre;pre;...`, each `pre` = `-` or `1,2`.
-  `jump effect <src> <tgt> <g>`  →  `B|F rearm=.. skip=.. src=S|-`
-  `jump budget <wfmax|none> <stagemax,.. (none|int)> <counts,..> <s:t;s:t;..|->`  →  `AR..|c0,c1,..` -/
+  `jump effect <srcRunning 0/1> <src> <tgt> <g>`  →  `IGNORED` | `B|F rearm=.. skip=.. src=S|-`
+  `jump budget <wfmax|none> <stagemax,.. (none|int)> <counts,..> <req;req;..|->`  →  `AIR..|c0,c1,..`
+     with `req` = `s:t` (source RUNNING) or `s:t:x` (source not RUNNING ⇒ ignored) -/
 
 def parseGraph (s : String) : Option Graph :=
   Parse.all? Parse.natList? (s.splitOn ";")
@@ -148,9 +182,10 @@ def parseGraph (s : String) : Option Graph :=
 def optInt? (s : String) : Option (Option Int) :=
   if s == "none" then some none else (Parse.int? s).map some
 
-def parsePair (s : String) : Option (Nat × Nat) :=
+def parseReq (s : String) : Option (Nat × Nat × Bool) :=
   match s.splitOn ":" with
-  | [a, b] => do pure ((← Parse.nat? a), (← Parse.nat? b))
+  | [a, b] => do pure ((← Parse.nat? a), (← Parse.nat? b), true)
+  | [a, b, "x"] => do pure ((← Parse.nat? a), (← Parse.nat? b), false)
   | _ => none
 
 def showInts (xs : List Int) : String :=
@@ -158,21 +193,24 @@ def showInts (xs : List Int) : String :=
 
 def driveBudget (wf st cs js : String) : String :=
   match optInt? wf, Parse.all? optInt? (st.splitOn ","), Parse.all? Parse.int? (cs.splitOn ","),
-        (if js == "-" then some [] else Parse.all? parsePair (js.splitOn ";")) with
+        (if js == "-" then some [] else Parse.all? parseReq (js.splitOn ";")) with
   | some wf, some st, some cs, some js =>
-    let r := runJumps { wf := wf, stage := st } cs js
-    String.join (r.2.map (fun ok => if ok then "A" else "R")) ++ "|" ++ showInts r.1
+    let r := runReqs { wf := wf, stage := st } cs js
+    String.join (r.2.map (fun v => match v with
+      | .accepted => "A" | .rejected => "R" | .ignored => "I")) ++ "|" ++ showInts r.1
   | _, _, _, _ => "bad-request"
 
 def drive (rest : String) : String :=
   match rest.splitOn " " with
   | ["budget", wf, st, cs, js] => driveBudget wf st cs js
-  | ["effect", s, t, g] =>
-    match Parse.nat? s, Parse.nat? t, parseGraph g with
-    | some s, some t, some g =>
-      let e := jumpEffect g s t
-      s!"{if e.backward then "B" else "F"} rearm={Parse.showNats e.rearm} skip={Parse.showNats e.skip} src={if e.sourceSucceeded then "S" else "-"}"
-    | _, _, _ => "bad-request"
+  | ["effect", run, s, t, g] =>
+    match Parse.bool? run, Parse.nat? s, Parse.nat? t, parseGraph g with
+    | some run, some s, some t, some g =>
+      match handleEffect g run s t with
+      | none => "IGNORED"
+      | some e =>
+        s!"{if e.backward then "B" else "F"} rearm={Parse.showNats e.rearm} skip={Parse.showNats e.skip} src={if e.sourceSucceeded then "S" else "-"}"
+    | _, _, _, _ => "bad-request"
   | ["resettable", r, g] =>
     match Parse.nat? r, parseGraph g with
     | some r, some g => Parse.showNats (resettable g r)
